@@ -222,12 +222,21 @@ impl C14Case {
             Mode::CompileError => {
                 let last = p.lines.last().map(|l| l.num).unwrap_or(10);
                 if last < 65500 {
-                    // a reference to a line that does not exist
-                    let absent = last + 7;
-                    p.lines.push(Line {
-                        num: last + 3,
-                        stmts: vec![Stmt::Goto(Target::Abs(absent))],
-                    });
+                    if self.entropy % 3 != 0 {
+                        // a reference to a line that does not exist
+                        let absent = last + 7;
+                        p.lines.push(Line {
+                            num: last + 3,
+                            stmts: vec![Stmt::Goto(Target::Abs(absent))],
+                        });
+                    }
+                    if self.entropy % 3 != 1 {
+                        // a line that does not parse
+                        p.lines.push(Line {
+                            num: last + 5,
+                            stmts: vec![Stmt::Raw("PRINT (".into())],
+                        });
+                    }
                 }
             }
         }
@@ -361,6 +370,28 @@ impl Case for C14Case {
         };
         let expected = render_program(&q);
         let got: Vec<String> = l1.lines().map(|s| s.to_string()).collect();
+        if self.mode() == Mode::CompileError {
+            // RENUM went through on a program that does not compile: a reference to a line that did
+            // not exist must not have become a reference to a line that does
+            let mut live: Option<u16> = None;
+            for l in &typed.lines {
+                walk_stmts(&l.stmts, &mut |st| {
+                    if let Stmt::Goto(Target::Abs(n)) = st {
+                        if !typed.lines.iter().any(|x| x.num == *n) && q.lines.iter().any(|x| x.num == *n) {
+                            live = Some(*n);
+                        }
+                    }
+                });
+            }
+            if let Some(n) = live {
+                v.violation = Some(Violation {
+                    key: "C14:dangling-reference-became-live".into(),
+                    detail: format!("{:?} on a program with a reference to the missing line {}: no error, and line {} exists afterwards; listing {:?}", text, n, n, got),
+                });
+                finish(&mut v, &w);
+                return v;
+            }
+        }
         if got != expected {
             let key = if got.len() != expected.len() {
                 "C14:renumbered:line-count".to_string()
@@ -766,7 +797,7 @@ impl Property for C14 {
         }
     }
     fn rule(&self) -> &'static str {
-        "one evaluation = a generated link-clean program (GOTO, GOSUB, IF..THEN n / ELSE n / IF..GOTO n, ON..GOTO, ON..GOSUB, RESTORE n, and on unreachable lines RUN n, LIST / DELETE in all range forms and bare; decoy numbers in PRINT, DATA, strings and remarks; non-ASCII literals and octal / hex / exponent / typed numeric literals in front of references; line 0; lines up to 65529) typed into the real runtime, optionally a get_listing() snapshot held, then (20%: after a first, valid partial RENUM that moves the lines from a seeded one on above all others) RENUM in one of its eight argument forms with valid, overflowing, reordering, step-0 and out-of-range operands (5%: as the first program line + RUN; 5%: on a program with a dangling reference); verdict = (error reported AND listing unchanged) OR (no error AND listing equals the model renumbering of the AST, lines are found under their new numbers by LIST n and by the completion lookup, and typing a new number replaces that line), then RUN of original (fresh twin) and renumbered program with transcripts and final variables equal modulo the line map; distinct = distinct API/event log fingerprint; non-trivial = RENUM reached its verdict"
+        "one evaluation = a generated link-clean program (GOTO, GOSUB, IF..THEN n / ELSE n / IF..GOTO n, ON..GOTO, ON..GOSUB, RESTORE n, and on unreachable lines RUN n, LIST / DELETE in all range forms and bare; decoy numbers in PRINT, DATA, strings and remarks; non-ASCII literals and octal / hex / exponent / typed numeric literals in front of references; line 0; lines up to 65529) typed into the real runtime, optionally a get_listing() snapshot held, then (20%: after a first, valid partial RENUM that moves the lines from a seeded one on above all others) RENUM in one of its eight argument forms with valid, overflowing, reordering, step-0 and out-of-range operands (5%: as the first program line + RUN; 5%: on a program with a dangling reference and / or a line that does not parse; a RENUM that goes through there must not turn the dangling reference into a live one); verdict = (error reported AND listing unchanged) OR (no error AND listing equals the model renumbering of the AST, lines are found under their new numbers by LIST n and by the completion lookup, and typing a new number replaces that line), then RUN of original (fresh twin) and renumbered program with transcripts and final variables equal modulo the line map; distinct = distinct API/event log fingerprint; non-trivial = RENUM reached its verdict"
     }
     fn assumptions(&self) -> Vec<&'static str> {
         vec![
